@@ -260,3 +260,11 @@ Qed.
 
 Lemma debond_wf_reachable_l epoch ops : wfD (drun (dinit epoch) ops).
 Proof. apply wfD_run. apply wfD_init. Qed.
+
+Lemma wfD_init2 epoch b s : wfD (dinit2 epoch b s).
+Proof. unfold wfD, dinit2. cbn. repeat split; try constructor. Qed.
+
+(* the same over histories that start from an existing active pool (the
+   multiplexer stream starts from a genesis validator entity) *)
+Lemma debond_wf_reachable2_l epoch b s ops : wfD (drun (dinit2 epoch b s) ops).
+Proof. apply wfD_run. apply wfD_init2. Qed.
